@@ -1,5 +1,176 @@
 import SmtpV.Model.Client
+import SmtpV.Model.Reply
 import SmtpV.Spec.Codec
-/-! # C17 (theorems follow) -/
+import SmtpV.Proofs.ReplyRT
+/-!
+# C17 — backend errors reach the peer and the client with code, class and text intact
+
+Model level: `Reply.render`/`renderError`/`dataStatus` (conn.go: writeResponse, writeError,
+dataErrorToStatus) composed with `Client.readResponse` + `toSMTPErr` (client.go).  Tied to the code by
+the `reply`, `tosmtperr`, `rt` and `e2e` probes.  The theorems below cover every reply code 100–999,
+every enhanced code of non-negative int64 numbers and EVERY message text, one line or many
+(`C17_roundtrip`).  What the theorems do not cover: a reply without any enhanced code on the wire
+(`NoEnhancedCode`, or an unset code on a reply of class 3), which the client cannot tell from one that
+carries a code when its text looks like one — decided by the law judge on the probes.
+-/
 namespace SmtpV.Props.C17
+open SmtpV SmtpV.Text SmtpV.Spec SmtpV.Reply SmtpV.Client SmtpV.ReplyRT
+
+/-- the text line a one-line reply puts on the wire (without CRLF) -/
+def wireLine (code : Nat) (e : Enh) (msg : Bytes) : Bytes := natToDec code ++ [32] ++ enhBytes e ++ [32] ++ msg
+
+theorem EnhOk_ne_noEnh (e : Enh) (h : EnhOk e) : (e == noEnh) = false := by
+  cases hb : e == noEnh with
+  | false => rfl
+  | true =>
+    have : e = noEnh := by simpa using hb
+    subst this
+    obtain ⟨h0, _⟩ := h
+    simp [noEnh] at h0
+
+/-- what `writeResponse` writes for a one-line text is exactly one CRLF-terminated line -/
+theorem render_single (code : Nat) (enh : Enh) (msg : Bytes) (hm : ∀ b ∈ msg, b ≠ 10) (he : EnhOk (effEnh code enh)) :
+    render code enh [msg] = wireLine code (effEnh code enh) msg ++ crlf := by
+  have hl : textLines [msg] = [msg] := by
+    simp only [textLines, List.intercalate, List.intersperse, List.flatten_cons, List.flatten_nil, List.append_nil]
+    exact splitByte_noSep msg LF hm
+  simp only [render, hl, List.dropLast_singleton, List.flatMap_nil, List.nil_append, List.getLast?_singleton,
+    renderLine, EnhOk_ne_noEnh _ he, Bool.false_eq_true, if_false, wireLine, SP]
+  simp [List.append_assoc]
+
+/-- **C17_roundtrip_single.**  A backend `SMTPError{code, enh, msg}` with a one-line message, rendered by the
+    server and read by the client (which expected another code), comes back as an equal SMTPError — with the
+    enhanced code the server actually sent (`X.0.0` of the reply's class when unset). -/
+theorem C17_roundtrip_single (expect code : Nat) (h1 : 100 ≤ code) (h2 : code ≤ 999) (enh : Enh) (msg : Bytes)
+    (hm : ∀ b ∈ msg, b ≠ 10) (he : EnhOk (effEnh code enh)) (hx : codeMatches expect code = false) (rest : List Bytes) :
+    render code enh [msg] = wireLine code (effEnh code enh) msg ++ crlf ∧
+    readResponse expect (wireLine code (effEnh code enh) msg :: rest) =
+      (.smtpErr { code := code, enh := effEnh code enh, msg := msg }, rest) := by
+  refine ⟨render_single code enh msg hm he, ?_⟩
+  have := readResponse_single expect code h1 h2 (effEnh code enh) he msg hm rest
+  simpa [wireLine, hx] using this
+
+/-- **C17_unset_class.**  An unset enhanced code goes out as `X.0.0` of the reply's class. -/
+theorem C17_unset_class (code : Nat) (h : code / 100 = 2 ∨ code / 100 = 4 ∨ code / 100 = 5) :
+    effEnh code notSet = ⟨(code / 100 : Nat), 0, 0⟩ ∧ EnhOk (effEnh code notSet) := by
+  have e : effEnh code notSet = ⟨(code / 100 : Nat), 0, 0⟩ := by
+    unfold effEnh
+    rcases h with h | h | h <;> simp [h, notSet]
+  refine ⟨e, ?_⟩
+  rw [e]
+  have : code / 100 ≤ 5 := by omega
+  simp only [EnhOk]
+  refine ⟨by omega, by omega, by omega, by omega, by omega, by omega⟩
+
+/-- **C17_generic_envelope.**  Any other error from session creation, Mail or Rcpt: `451 4.0.0 <text>`. -/
+theorem C17_generic_envelope (expect : Nat) (m : Bytes) (hm : ∀ b ∈ m, b ≠ 10) (hx : codeMatches expect 451 = false) :
+    renderError 451 ⟨4, 0, 0⟩ (.er m) = wireLine 451 ⟨4, 0, 0⟩ m ++ crlf ∧
+    readResponse expect [wireLine 451 ⟨4, 0, 0⟩ m] = (.smtpErr { code := 451, enh := ⟨4, 0, 0⟩, msg := m }, []) := by
+  have e : effEnh 451 ⟨4, 0, 0⟩ = ⟨4, 0, 0⟩ := by decide
+  have he : EnhOk (effEnh 451 ⟨4, 0, 0⟩) := by rw [e]; simp [EnhOk]
+  have := C17_roundtrip_single expect 451 (by decide) (by decide) ⟨4, 0, 0⟩ m hm he hx []
+  rw [e] at this
+  exact this
+
+/-- **C17_generic_data.**  Any other error from Data: `554 5.0.0 Error: transaction failed: <text>`. -/
+theorem C17_generic_data (expect : Nat) (m : Bytes) (hm : ∀ b ∈ m, b ≠ 10) (hx : codeMatches expect 554 = false) :
+    dataStatus (.er m) = (554, ⟨5, 0, 0⟩, "Error: transaction failed: ".b ++ m) ∧
+    readResponse expect [wireLine 554 ⟨5, 0, 0⟩ ("Error: transaction failed: ".b ++ m)] =
+      (.smtpErr { code := 554, enh := ⟨5, 0, 0⟩, msg := "Error: transaction failed: ".b ++ m }, []) := by
+  refine ⟨rfl, ?_⟩
+  have e : effEnh 554 ⟨5, 0, 0⟩ = ⟨5, 0, 0⟩ := by decide
+  have he : EnhOk (effEnh 554 ⟨5, 0, 0⟩) := by rw [e]; simp [EnhOk]
+  have hm' : ∀ b ∈ "Error: transaction failed: ".b ++ m, b ≠ 10 := by
+    intro b hb
+    rcases List.mem_append.mp hb with h | h
+    · have : ("Error: transaction failed: ".b).all (fun b => b != 10) = true := by decide +kernel
+      simpa using List.all_eq_true.mp this b h
+    · exact hm b h
+  have := (C17_roundtrip_single expect 554 (by decide) (by decide) ⟨5, 0, 0⟩ _ hm' he hx []).2
+  rw [e] at this
+  exact this
+
+/-! ### any number of lines -/
+
+/-- the lines `writeResponse` puts on the wire for the text lines `ls` (without CRLF) -/
+def wireLines (code : Nat) (e : Enh) (ls : List Bytes) : List Bytes :=
+  ls.dropLast.map (contLine code e) ++ (match ls.getLast? with | some l => [lastLine code e l] | none => [])
+
+theorem join_cons (first : Bytes) (tl : List Bytes) :
+    List.intercalate [10] (first :: tl) = first ++ tl.flatMap fun l => 10 :: l := by
+  induction tl generalizing first with
+  | nil => simp [List.intercalate, List.intersperse]
+  | cons a tl ih =>
+    rw [List.intercalate_cons_cons, ih a]
+    simp
+
+/-- what `writeResponse` writes is exactly these lines, each followed by CRLF -/
+theorem render_lines (code : Nat) (enh : Enh) (msg : Bytes) (he : EnhOk (effEnh code enh)) :
+    render code enh [msg] = (wireLines code (effEnh code enh) (splitByte msg 10)).flatMap (· ++ crlf) := by
+  have hl : textLines [msg] = splitByte msg 10 := by
+    simp [textLines, List.intercalate, List.intersperse, LF]
+  have hne := EnhOk_ne_noEnh _ he
+  simp only [render, hl, wireLines, List.flatMap_append, List.flatMap_map]
+  congr 1
+  · induction (splitByte msg 10).dropLast with
+    | nil => rfl
+    | cons l ls ih =>
+      simp only [List.flatMap_cons, ih]
+      simp [renderLine, contLine, tok, hne, SP, List.append_assoc]
+  · cases (splitByte msg 10).getLast? with
+    | none => rfl
+    | some l => simp [renderLine, lastLine, tok, hne, SP, List.append_assoc]
+
+/-- **C17_roundtrip.**  For EVERY message text — one line or many, empty lines, lines that themselves start with
+    something that looks like an enhanced code — a backend `SMTPError{code, enh, msg}` rendered by the server
+    (the enhanced code on every line) is turned back by the client into an equal SMTPError. -/
+theorem C17_roundtrip (expect code : Nat) (h1 : 100 ≤ code) (h2 : code ≤ 999) (enh : Enh) (msg : Bytes)
+    (he : EnhOk (effEnh code enh)) (hx : codeMatches expect code = false) (rest : List Bytes) :
+    readResponse expect (wireLines code (effEnh code enh) (splitByte msg 10) ++ rest) =
+      (.smtpErr { code := code, enh := effEnh code enh, msg := msg }, rest) := by
+  have hjoin := join_split msg 10
+  have hno := splitByte_noSepIn msg 10
+  have hnil := splitByte_ne_nil msg 10
+  generalize splitByte msg 10 = ls at hjoin hno hnil
+  -- `ls = first :: tl`
+  cases ls with
+  | nil => exact absurd rfl hnil
+  | cons first tl =>
+    rw [join_cons] at hjoin
+    cases htl : tl.getLast? with
+    | none =>
+      -- one line
+      have : tl = [] := by simpa using htl
+      subst this
+      simp only [List.flatMap_nil, List.append_nil] at hjoin
+      subst hjoin
+      have := readResponse_single expect code h1 h2 (effEnh code enh) he first (hno first (by simp)) rest
+      simpa [wireLines, lastLine, tok, hx, List.append_assoc] using this
+    | some last =>
+      -- two or more lines: `tl = mid ++ [last]`
+      obtain ⟨mid, rfl⟩ : ∃ mid, tl = mid ++ [last] := List.getLast?_eq_some_iff.mp htl
+      have hm : ∀ l ∈ mid, ∀ b ∈ l, b ≠ 10 := fun l hl => hno l (by simp [hl])
+      have hl : ∀ b ∈ last, b ≠ 10 := hno last (by simp)
+      have hf : ∀ b ∈ first, b ≠ 10 := hno first (by simp)
+      have := readResponse_multi expect code h1 h2 (effEnh code enh) he first mid last hf hm hl rest
+      have hw : wireLines code (effEnh code enh) (first :: (mid ++ [last])) ++ rest =
+          contLine code (effEnh code enh) first ::
+            (mid.map (contLine code (effEnh code enh)) ++ lastLine code (effEnh code enh) last :: rest) := by
+        have e1 : (first :: (mid ++ [last])).dropLast = first :: mid := by
+          rw [show first :: (mid ++ [last]) = (first :: mid) ++ [last] by simp, List.dropLast_concat]
+        have e2 : (first :: (mid ++ [last])).getLast? = some last := by
+          rw [show first :: (mid ++ [last]) = (first :: mid) ++ [last] by simp, List.getLast?_concat]
+        simp [wireLines, e1, e2]
+      rw [hw, this, hjoin]
+      simp [hx]
+
+/-! ### non-vacuity -/
+
+example : render 550 notSet ["no such user".b] = "550 5.0.0 no such user\r\n".b := by decide +kernel
+example : readResponse 250 ["550 5.0.0 no such user".b] =
+    (.smtpErr { code := 550, enh := ⟨5, 0, 0⟩, msg := "no such user".b }, []) := by decide +kernel
+/-- the multi-line shape the theorem does not cover is still computed by the same definitions -/
+example : (readResponse 250 ["554-5.6.0 first".b, "554 5.6.0 second".b]).1 =
+    .smtpErr { code := 554, enh := ⟨5, 6, 0⟩, msg := "first\nsecond".b } := by decide +kernel
+
 end SmtpV.Props.C17
